@@ -87,3 +87,141 @@ def prepopulate(proj, R, vector, fail_kinds=None):
     for name, j in jobs.items():
         set_job_state(sim, j, vector.get(name, "unknown"), (fail_kinds or {}).get(name, "exit"))
     return jobs
+
+
+# ======================================================================
+# Session: a project + simulated scheduler + model bookkeeping, driven step by step
+
+
+class Session:
+    def __init__(self, proj, desc, hashing=False, accounting=True):
+        self.proj = proj
+        self.sim = proj.sim
+        self.flavour = proj.backend
+        self.desc = desc
+        self.hashing = hashing
+        self.accounting = accounting
+        self.records = {}  # model: name -> spec text recorded
+        self.R = model.Resolved(self._with_files())
+
+    # -- model views ---------------------------------------------------------
+    def _with_files(self):
+        paths = set(self.desc.get("files", {}))
+        for t in self.desc["targets"]:
+            T = model.T(t)
+            paths |= T.inset | T.outset
+        return dict(self.desc, files={p: self.proj.tick_of(p) for p in paths})
+
+    def refresh(self):
+        self.R = model.Resolved(self._with_files())
+        return self.R
+
+    def names(self):
+        return [t["name"] for t in self.desc["targets"]]
+
+    def vector(self):
+        vec = {}
+        for n in self.names():
+            j = self.sim.latest(n)
+            if j is None:
+                vec[n] = "unknown"
+                continue
+            st = {simsched.PENDING: "submitted", simsched.RUNNING: "running", simsched.DONE: "completed",
+                  simsched.FAILED: "failed", simsched.CANCELLED: "cancelled"}[j.state]
+            if self.flavour == "slurm":
+                if not j.in_queue and not (self.accounting and j.in_acct):
+                    st = "unknown"
+            elif not j.in_queue:
+                st = "unknown"
+            vec[n] = visible_state(self.flavour, st, self.accounting)
+        return vec
+
+    def plan(self, requested=None):
+        R = self.refresh()
+        req = R.endpoints() if requested is None else requested
+        return R.plan(req, self.vector(), self.hashing, self.records)
+
+    # -- commands ------------------------------------------------------------
+    def run(self, pats=(), dry=False):
+        before = len(self.sim.submissions())
+        r = self.proj.gwf(["run", *(["--dry-run"] if dry else []), *pats])
+        new = self.sim.submissions()[before:]
+        if self.hashing:
+            for j in new:
+                t = next((t for t in self.desc["targets"] if t["name"] == j.name), None)
+                if t is not None:
+                    self.records[j.name] = t["spec"]
+        return r, new
+
+    def touch(self, pats=()):
+        R = self.refresh()
+        names = self.names()
+        selected = model.match_names(names, pats) if pats else R.endpoints()
+        cone = R.cone(selected)
+        before = self.proj.snapshot()
+        r = self.proj.gwf(["touch", *pats], track_fs=True)
+        after = self.proj.snapshot()
+        order = []
+        for kind, rel in r.fs_events:
+            if rel in order:
+                order.remove(rel)
+            order.append(rel)
+        changed = [k for k, x, y in self.proj.snap_diff(before, after)
+                   if not k.startswith(".gwf/") and k != ".gwfconf.json" and y is not None]
+        rest = sorted(set(changed) - set(order), key=lambda k: after[k][3])
+        if rest:
+            order = sorted(set(order) | set(rest), key=lambda k: after[k][3] if k in after else 0)
+        for rel in order:
+            if rel in after:
+                self.proj.stamp(rel, self.proj.next_tick())
+        if r.code == 0 and self.hashing:
+            for n in cone:
+                self.records[n] = R.by_name[n].spec
+        return r, cone
+
+    def clean(self, pats, all_=True):
+        R = self.refresh()
+        names = self.names()
+        selected = model.match_names(names, pats) if pats else set(names)
+        if not all_:
+            selected -= R.endpoints()
+        r = self.proj.gwf(["clean", *(["--all"] if all_ else []), "--force", *pats])
+        if r.code == 0 and self.hashing:
+            for n in selected:
+                self.records.pop(n, None)
+        return r, selected
+
+    def set_hashing(self, on):
+        r = self.proj.gwf(["config", "set", "use_spec_hashes", "true" if on else "false"])
+        if r.code != 0:
+            raise HarnessError("config set failed: " + r.brief())
+        self.hashing = on
+        return r
+
+    # -- scheduler side --------------------------------------------------------
+    def complete(self, job):
+        """A running job ends successfully and has created its declared outputs."""
+        self.sim.finish(job.id, ok=True)
+        if any(t["name"] == job.name for t in self.desc["targets"]):
+            self.proj.produce(job.name)
+
+    def drain(self, choose=None):
+        """Run every accepted job to successful completion in a legal order.
+        choose(list) -> index lets the generator pick which legal transition happens next."""
+        k = 0
+        for _ in range(10000):
+            self.sim.kill_never_satisfied()
+            opts = [("start", j) for j in self.sim.startable()] + [("finish", j) for j in self.sim.running()]
+            if not opts:
+                break
+            i = choose(k, len(opts)) if choose else 0
+            k += 1
+            kind, j = opts[i % len(opts)]
+            if kind == "start":
+                self.sim.start(j.id)
+            else:
+                self.complete(j)
+        else:
+            raise HarnessError("drain did not terminate")
+        stuck = [j for j in self.sim.submissions() if j.state == simsched.PENDING]
+        return stuck
